@@ -287,10 +287,14 @@ fn zero_padded_lengths(ctx: &Ctx) {
 /// tampered blob) directly followed by the right unlock of the same blob, by a lock under the same salt, by the same
 /// calls for the empty password - must each give the documented result, whatever was computed just before.
 fn call_sequences(ctx: &Ctx) {
-    let mut rng = Rng::fork(ctx.seed, "C15-seq");
     let pws: Vec<Vec<u8>> = vec![b"".to_vec(), b"a".to_vec(), b"seq-pw".to_vec(), "p\u{e4}ss".as_bytes().to_vec(), vec![b'x'; 64]];
-    for round in 0..ctx.tier.pick(3, 20) {
-        for pw in &pws {
+    let rounds = ctx.tier.pick(3, 20);
+    // each (round, password) sequence runs in ONE thread from start to end (the state under test is per thread);
+    // different sequences run on different threads
+    crate::util::par_for(rounds * pws.len(), crate::util::ncpu(), |job| {
+        let (round, pw) = (job / pws.len(), &pws[job % pws.len()]);
+        let mut rng = Rng::fork(ctx.seed, &format!("C15-seq-{}", job));
+        {
             let sk = rng.arr32();
             let salt = rng.arr32();
             let want = refspec::lock_sk(&sk, pw, &salt);
@@ -327,7 +331,7 @@ fn call_sequences(ctx: &Ctx) {
                 prev = what.to_string();
             }
         }
-    }
+    });
 }
 
 fn real_lock(sk: &[u8; 32], pw: &[u8], salt: &[u8; 32]) -> Result<String, String> {
